@@ -538,32 +538,37 @@ func buildOut(v Val) interface{} {
 		return mustTime(v.S)
 	case "node":
 		return &thing{}
+	case "named": // a value of a named Go type with that underlying basic type
+		switch u := buildOut(*v.U).(type) {
+		case int8:
+			return nInt8(u)
+		case int16:
+			return nInt16(u)
+		case int32:
+			return nInt32(u)
+		case int64:
+			return nInt64(u)
+		case int:
+			return nInt(u)
+		case uint8:
+			return nUint8(u)
+		case float64:
+			return nFloat64(u)
+		case float32:
+			return nFloat32(u)
+		case string:
+			return nString(u)
+		case bool:
+			return nBool(u)
+		}
+		die("no named Go type for %v", *v.U)
+		return nil
 	case "other":
 		switch v.S {
 		case "map":
 			return map[string]int{"a": 1}
 		case "struct":
 			return struct{ A int }{1}
-		case "nint8":
-			return nInt8(7)
-		case "nint16":
-			return nInt16(7)
-		case "nint32":
-			return nInt32(7)
-		case "nint64":
-			return nInt64(7)
-		case "nint":
-			return nInt(7)
-		case "nuint8":
-			return nUint8(7)
-		case "nfloat64":
-			return nFloat64(1.5)
-		case "nfloat32":
-			return nFloat32(1.5)
-		case "nstring":
-			return nString("RED")
-		case "nbool":
-			return nBool(true)
 		default:
 			return make(chan int)
 		}
